@@ -737,5 +737,87 @@ def badgerStore_Set : List String := [
 def badgerStore_Delete : List String := [
   "return bs.db.Update(func(txn*badger.Txn)error{returntxn.Delete(key)})"]
 
+/-- main.main: on SIGHUP/INT/TERM/QUIT the servers are closed gracefully (in-flight requests finish, listeners close) and only then the process exits; nothing else happens at a stop — what is on disk is what the completed saves wrote -/
+def main_main : List String := [
+  "defer config.Close()",
+  "defer store.Close()",
+  "set c:=make(chanos.Signal,1)",
+  "call signal.Notify(c,syscall.SIGHUP,syscall.SIGINT,syscall.SIGTERM,syscall.SIGQUIT)",
+  "range c {",
+  "if !isDev() {",
+  "call server.Close()",
+  "}",
+  "call os.Exit(0)",
+  "}"]
+
+/-- main.update: read the saved configuration, then the five registries in this order, then start the servers that do not listen yet -/
+def main_update : List String := [
+  "set pikeConfig,err:=config.Read()",
+  "if err!=nil {",
+  "return",
+  "}",
+  "call compress.Reset(pikeConfig.Compresses)",
+  "call cache.ResetDispatchers(pikeConfig.Caches)",
+  "call upstream.ResetWithOnStats(pikeConfig.Upstreams,func(siupstream.StatusInfo){log.Default().Info(\"upstreamstatuschange\",zap.String(\"name\",si.Name),zap.String(\"status\",si.Status),zap.String(\"addr\",si.URL),)ifsi.Status==\"sick\"{message:=fmt.Sprintf(\"%sis%s,addr:%s\",si.Name,si.Status,si.URL)godoAlarm(\"upstream\",message)}})",
+  "call location.Reset(pikeConfig.Locations)",
+  "call server.Reset(pikeConfig.Servers)",
+  "return server.Start()"]
+
+/-- config etcd client Get: the value under the configured key, as it is -/
+def config_etcdClient_Get : List String := [
+  "set ctx,cancel:=ec.context()",
+  "defer cancel()",
+  "set resp,err:=ec.c.Get(ctx,ec.key)",
+  "if err!=nil {",
+  "return",
+  "}",
+  "set kvs:=resp.Kvs",
+  "if len(kvs)==0 {",
+  "return",
+  "}",
+  "set data=kvs[0].Value",
+  "return"]
+
+/-- config etcd client Set: the bytes under the configured key, as they are -/
+def config_etcdClient_Set : List String := [
+  "set ctx,cancel:=ec.context()",
+  "defer cancel()",
+  "set _,err=ec.c.Put(ctx,ec.key,string(data))",
+  "return"]
+
+/-- config etcd client Watch: every change event of the key calls the callback -/
+def config_etcdClient_Watch : List String := [
+  "set ch:=ec.c.Watch(context.Background(),ec.key)",
+  "range ch {",
+  "call onChange()",
+  "}"]
+
+/-- config.Write: validate FIRST, stamp the version, marshal, hand the bytes to the client -/
+def config_Write : List String := [
+  "set err=config.Validate()",
+  "if err!=nil {",
+  "return",
+  "}",
+  "set config.Version=app.GetVersion()",
+  "set data,err:=yaml.Marshal(config)",
+  "if err!=nil {",
+  "return",
+  "}",
+  "return defaultClient.Set(data)"]
+
+/-- config.Read: the client's bytes, unmarshalled; the text is kept alongside -/
+def config_Read : List String := [
+  "set data,err:=defaultClient.Get()",
+  "if err!=nil {",
+  "return",
+  "}",
+  "set config=&PikeConfig{}",
+  "set err=yaml.Unmarshal(data,config)",
+  "if err!=nil {",
+  "return",
+  "}",
+  "set config.YAML=string(data)",
+  "return"]
+
 end Spec.Skeleton
 end Pike
